@@ -1,0 +1,42 @@
+//go:build verif
+
+package builtinfunctions
+
+// Contracts for the built-in expression functions, read by the govc verifier
+// (build tag verif). This file contains no executable code.
+//
+//@ func getIntToFloatFunction$1
+//@   ensures [exact-rounding] result == float64(a)
+//
+//@ func getFloatToIntFunction$1
+//@   ensures [nan-is-error]   isNaN(a) <==> result1 != nil
+//@   ensures [saturate-high]  !isNaN(a) && a >= 0x1p63 ==> result == 9223372036854775807
+//@   ensures [saturate-low]   !isNaN(a) && a <= -0x1p63 ==> result == -9223372036854775808
+//@   ensures [truncates]      !isNaN(a) && a > -0x1p63 && a < 0x1p63 ==> result == trunc(a)
+//
+//@ lemma floatToInt_monotonic(a float64, b float64)
+//@   requires !isNaN(a) && !isNaN(b) && a <= b
+//@   call ra = getFloatToIntFunction$1(a)
+//@   call rb = getFloatToIntFunction$1(b)
+//@   ensures [monotonic] ra <= rb
+//
+//@ func getBindConstantsFunction$1
+//@   ensures [no-error]    result1 == nil
+//@   ensures [same-length] typeis(result, []any) && len(result.([]any)) == len(items)
+//@   ensures [pairs-in-order] forall k int :: 0 <= k && k < len(items) ==> bound(result.([]any)[k], items[k], columnValues)
+//@   loop 1 invariant [index] -1 <= rangeidx && rangeidx < len(items) || len(items) == 0 && rangeidx == -1
+//@   loop 1 invariant [pairs] forall j int :: 0 <= j && j <= rangeidx ==> bound(combinedItems[j], items[j], columnValues) && allocated(combinedItems[j].(map[string]any))
+//
+//@ pred bound(entry any, item any, constant any) = typeis(entry, map[string]any) && \
+//@   len(entry.(map[string]any)) == 2 && \
+//@   indom(entry.(map[string]any), "item") && entry.(map[string]any)["item"] == item && \
+//@   indom(entry.(map[string]any), "constant") && entry.(map[string]any)["constant"] == constant
+//
+//@ func getFloatToStringFunction$1
+//@ func getFloatToFormattedStringFunction$1
+//@ func getIntToStringFunction$1
+//@ func getStringToIntFunction$1
+//@ func getStringToFloatFunction$1
+//@ func getStringToBoolFunction$1
+//@ func getReadFileFunction$1
+//@ func getGetEnvVarFunction$1
